@@ -74,6 +74,9 @@ impl SupervisorW {
     #[verifier::external_body]
     pub fn build_seqno_map(&self, keyspaces: &Keyspaces, Tracked(w): Tracked<&mut World>) -> (r: Vec<EvictionWatermark>)
         requires forall|i: int| 0 <= i < keyspaces.vals@.len() ==> ks_wf(&(#[trigger] keyspaces.vals@[i]), *old(w)),
+            // protocol rule: the watermarks are read INSIDE the journal critical section that seals the journal -- read before the lock
+            // is held, a write that completes in between sits in the sealed journal without (or above) its keyspace's watermark
+            old(w).journal.locked, // [C10:watermarks-read-inside-the-journal-critical-section] [C02:watermarks-read-inside-the-journal-critical-section]
         ensures *final(w) == *old(w),
             forall|i: int| 0 <= i < keyspaces.vals@.len() && old(w).trees[(#[trigger] keyspaces.vals@[i]).id].mem_max is Some ==>
                 has_wm(r@, keyspaces.vals@[i].id, old(w).trees[keyspaces.vals@[i].id].mem_max->Some_0),
